@@ -116,4 +116,10 @@ CHECKS["C11"] = dict(
     note="Trusts: the corpus; Regexp has no TLA+ semantics and is judged against isinstance only (the statement's own oracle). bool and int compare numerically (True == 1).",
     ref="5 C11")
 
+CHECKS["C17"] = dict(
+    technique="Doc overload set per class as a TLA+ operator (ClassOvld.tla EffMethods; MC_Class checks its invariants over every hierarchy of the bound) + trace judge Trace_Resolve C17Clause: every probe of every class after every class definition judged with the documented resolution rule over EffMethods",
+    text="Class hierarchies (metaclass / OvldBase roots, plain mixin classes, one or two bases, 0-3 same-named definitions, extend_super or not, bodies with call_next and recurse on the bound method) are defined one class at a time on the real library; after every definition every class defined so far is probed with every argument class. TLC computes the documented overload set of each class from the hierarchy description and judges which bodies ran, that self is the instance, and that earlier classes keep their behaviour.",
+    note="Trusts: generator avoids the cases the statement leaves open (same annotation from two bases; no own definition under several bases). KF-latemark: marker on a later definition of the body.",
+    ref="5 C17")
+
 PENDING_REASON = "check not built yet in this round (planned, see DESIGN section 10)"
